@@ -35,9 +35,19 @@ pub fn tid() -> usize {
     TID.with(Cell::get)
 }
 
+/// Bumped whenever something happened that an idle thread may be waiting for
+/// (a waker fired, the kernel consumed or completed something, a thread ended).
+pub static PROGRESS: std::sync::atomic::AtomicU64 = std::sync::atomic::AtomicU64::new(0);
+
+pub fn progress() {
+    PROGRESS.fetch_add(1, std::sync::atomic::Ordering::AcqRel);
+}
+
 #[derive(Clone, Debug, PartialEq)]
 enum State {
     Runnable,
+    /// Nothing to do until `PROGRESS` moves past the value seen.
+    Idle(u64),
     BlockedLock,
     BlockedCq { wait: Wait, deadline: Option<u64> },
     Finished,
@@ -84,6 +94,8 @@ struct Sched {
     p_preempt: u32,
     done: Arc<Parker>,
     exhausted: bool,
+    /// Every thread is idle and nothing can make progress any more.
+    stalled: bool,
 }
 
 static SCHED: Mutex<Option<Sched>> = Mutex::new(None);
@@ -96,6 +108,7 @@ fn sched() -> std::sync::MutexGuard<'static, Option<Sched>> {
 fn can_run(s: &Sched, i: usize) -> bool {
     match &s.threads[i].state {
         State::Runnable | State::BlockedLock => true,
+        State::Idle(seen) => PROGRESS.load(std::sync::atomic::Ordering::Acquire) != *seen,
         State::BlockedCq { wait, .. } => {
             s.threads[i].reason != WakeReason::None
                 || kernel::with(|k| {
@@ -137,6 +150,15 @@ fn pick(s: &mut Sched, me: usize, must_switch: bool) -> Option<usize> {
             .filter(|i| matches!(s.threads[*i].state, State::BlockedCq { .. }))
             .collect();
         if waiters.is_empty() {
+            // Only idle threads (or nobody) left: let them notice.
+            let idle: Vec<usize> = (0..s.threads.len())
+                .filter(|i| (*i != me || !must_switch) && matches!(s.threads[*i].state, State::Idle(_)))
+                .collect();
+            if let Some(i) = idle.first() {
+                s.threads[*i].state = State::Runnable;
+                s.stalled = true;
+                return Some(*i);
+            }
             return None;
         }
         // Let the kernel finish in-flight work if there is any...
@@ -212,7 +234,9 @@ pub fn yield_now(site: a10::verif::Site, _addr: usize) {
             report::harness_error("scheduler step budget exhausted".to_string());
         }
         if blocked {
-            stats::inc(C::probe_lock_contended);
+            if _addr != 0 {
+                stats::inc(C::probe_lock_contended);
+            }
             s.threads[me].state = State::BlockedLock;
         }
         let next = pick(s, me, blocked);
@@ -232,6 +256,46 @@ pub fn yield_now(site: a10::verif::Site, _addr: usize) {
             // Everybody else is finished or blocked on a lock we hold: keep going.
         }
     }
+}
+
+/// The calling thread has nothing to do until somebody else made progress:
+/// hand the baton to another thread. Returns false if nothing can make
+/// progress any more (every thread is idle, nobody waits for the kernel).
+pub fn idle() -> bool {
+    let me = tid();
+    if me == usize::MAX {
+        return true;
+    }
+    alloc::harness(|| {
+        let seen = PROGRESS.load(std::sync::atomic::Ordering::Acquire);
+        let next = {
+            let mut g = sched();
+            let Some(s) = g.as_mut() else { return true };
+            s.steps += 1;
+            if s.stalled {
+                return false;
+            }
+            s.threads[me].state = State::Idle(seen);
+            let n = pick(s, me, true);
+            if n.is_none() {
+                s.threads[me].state = State::Runnable;
+                s.stalled = true;
+                return false;
+            }
+            n
+        };
+        if let Some(n) = next {
+            switch_to(me, n);
+        }
+        let mut g = sched();
+        if let Some(s) = g.as_mut() {
+            s.threads[me].state = State::Runnable;
+            if s.stalled {
+                return false;
+            }
+        }
+        true
+    })
 }
 
 /// Harness level step boundary.
@@ -328,6 +392,7 @@ pub fn run_threads(bodies: Vec<Box<dyn FnOnce() + Send>>, p_preempt: u32, budget
             p_preempt,
             done: done.clone(),
             exhausted: false,
+            stalled: false,
         });
     }
     let mut handles = Vec::new();
@@ -352,6 +417,7 @@ pub fn run_threads(bodies: Vec<Box<dyn FnOnce() + Send>>, p_preempt: u32, budget
                     let mut g = sched();
                     let s = g.as_mut().unwrap();
                     s.threads[i].state = State::Finished;
+                    progress();
                     pick(s, i, true)
                 };
                 TID.with(|t| t.set(usize::MAX));
